@@ -20,7 +20,7 @@ META = {
                   'parameter exist and are exported, not readonly, not constant, payload accepted against the cached value, '
                   'dynamic limits and check hooks satisfied), change_calls_le_one, rejected_is_inert (otherwise: no call, node '
                   'unchanged, no update, error report of the class named by the decision list), no_call_cases, fitting_* (the '
-                  'class clause by clause), do_calls_iff, do_rejected_is_inert, request_ok + histories (every request of any '
+                  'class clause by clause, fitting_invertedPair for a LimitsType pair), do_calls_iff, do_rejected_is_inert, request_ok + histories (every request of any '
                   'history, limits moved by earlier requests included, satisfies the monitored specification; WF is kept). '
                   'The model is tied to dispatcher.py / modulebase.py / params.py by a correspondence run on the real '
                   'dispatcher with recording drivers, and the Lean monitors judge every implementation exchange.',
@@ -366,7 +366,9 @@ def gen_modspec(rng, name, big):
             cfg[p['attr']] = {'readonly': not p['readonly']}
         elif r < 0.26 and p['export'] is False:
             cfg[p['attr']] = {'export': True}
-    return {'name': name, 'base': base, 'exported': rng.random() < 0.8, 'layers': layers, 'cfg': cfg}
+    # feature mixins: 'FeatA' = direct Feature subclass (reported), 'FeatSub' = subclass of one (itself not a feature)
+    feats = rng.choice([[], [], [], ['FeatA'], ['FeatB', 'FeatA'], ['FeatSub'], ['FeatSub', 'FeatB']])
+    return {'name': name, 'base': base, 'exported': rng.random() < 0.8, 'layers': layers, 'cfg': cfg, 'features': feats}
 
 
 def gen_nodespec(rng, big):
@@ -536,6 +538,19 @@ def mk_layer_class(box, clsname, bases, layer, known):
     return type(clsname, bases, attrs)
 
 
+_features = {}
+
+
+def feature_class(name):
+    """empty feature mixins (no accessibles of their own)"""
+    from frappy.modulebase import Feature
+    if not _features:
+        _features['FeatA'] = type('FeatA', (Feature,), {'__module__': 'verifgen', '__doc__': 'feature A'})
+        _features['FeatB'] = type('FeatB', (Feature,), {'__module__': 'verifgen', '__doc__': 'feature B'})
+        _features['FeatSub'] = type('FeatSub', (_features['FeatA'],), {'__module__': 'verifgen', '__doc__': 'refined A'})
+    return _features[name]
+
+
 _MISSING = object()
 _clscount = [0]
 
@@ -551,7 +566,8 @@ def build_node(nodespec):
         _clscount[0] += 1
         base = getattr(fm, ms['base'])
         known = {}
-        c0 = mk_layer_class(box, 'GenA%d' % _clscount[0], (base,), ms['layers'][0], known)
+        mixins = tuple(feature_class(f) for f in ms.get('features', []))
+        c0 = mk_layer_class(box, 'GenA%d' % _clscount[0], mixins + (base,), ms['layers'][0], known)
         c1 = mk_layer_class(box, 'GenB%d' % _clscount[0], (c0,), ms['layers'][1], known)
         classes[ms['name']] = c1
         mcfg = {'cls': c1, 'description': 'generated module ' + ms['name']}
@@ -672,8 +688,10 @@ def node_json(node, nodespec=None, classes=None):
                     'datainfo': canonj(aobj.datatype.export_datatype()),
                     'props': props_json(aobj, ('datainfo',)),
                 })
+        from frappy.modulebase import Feature
         mods.append({'name': mname, 'exported': bool(modobj.export), 'accs': accs,
-                     'props': props_json(modobj, ())})
+                     'props': props_json(modobj, ()),
+                     'mro': [[b.__name__, Feature in b.__bases__] for b in mycls.__mro__]})
     return {'modules': mods}
 
 
